@@ -1303,4 +1303,695 @@ theorem addAll_spec {ε : Type} (add : Builder → ε → Except Err Builder) :
       · refine Or.inr ⟨e :: pre, e', post, b', err, by simp [h1], ?_, h3, by simp [addAll, hr, h4]⟩
         simp [List.foldlM, hr, h2, bind, Except.bind]
 
+/-! ### queries = their declarative meaning over the listed elements -/
+
+/-- the names under which an option can be addressed -/
+def Opt.names (o : Opt) : List Str :=
+  o.long :: (match o.short with | some (c :: r) => [c :: r] | _ => [])
+/-- the names under which a command option can be addressed -/
+def CmdOpt.names (c : CmdOpt) : List Str :=
+  c.long :: c.longAliases ++ (match c.short with | some (a :: r) => [a :: r] | _ => []) ++ c.shortAliases
+
+theorem Opt.mem_names (o : Opt) (n : Str) : n ∈ o.names ↔ n = o.long ∨ (o.short = some n ∧ n ≠ []) := by
+  unfold Opt.names
+  cases hs : o.short with
+  | none => simp
+  | some s =>
+    cases s with
+    | nil => simp
+    | cons c r =>
+      simp; constructor
+      · rintro (h | h)
+        · exact Or.inl h
+        · subst h; exact Or.inr ⟨rfl, by simp⟩
+      · rintro (h | h)
+        · exact Or.inl h
+        · exact Or.inr h.1.symm
+
+theorem CmdOpt.mem_names (c : CmdOpt) (n : Str) :
+    n ∈ c.names ↔ (n = c.long ∨ n ∈ c.longAliases) ∨ ((c.short = some n ∧ n ≠ []) ∨ n ∈ c.shortAliases) := by
+  unfold CmdOpt.names
+  cases hs : c.short with
+  | none => simp; grind
+  | some s =>
+    cases s with
+    | nil => simp; grind
+    | cons a r =>
+      simp; constructor
+      · rintro (h | h | h | h)
+        · exact Or.inl (Or.inl h)
+        · exact Or.inl (Or.inr h)
+        · subst h; exact Or.inr (Or.inl ⟨rfl, by simp⟩)
+        · exact Or.inr (Or.inr h)
+      · rintro ((h | h) | (h | h))
+        · exact Or.inl h
+        · exact Or.inr (Or.inl h)
+        · exact Or.inr (Or.inr (Or.inl h.1.symm))
+        · exact Or.inr (Or.inr (Or.inr h))
+
+theorem Opt.shortPair_get (o : Opt) (k : Str) :
+    dictGet? k o.shortPair = if o.short = some k ∧ k ≠ [] then some o else none :=
+  dictGet?_setIfTruthy_nil _ _ _
+
+/-- one level, options: lookup by long name, then by short name = the first listed option
+carrying the name (which is the only one) -/
+theorem level_getOption (os : List Opt) (n : Str)
+    (hn : (dictKeys (os.map (fun o => (o.long, o))) ++ dictKeys (os.flatMap Opt.shortPair)).Nodup) :
+    (dictGet? n (os.map (fun o => (o.long, o)))).or (dictGet? n (os.flatMap Opt.shortPair)) =
+      os.find? (fun o => decide (n ∈ o.names)) := by
+  induction os with
+  | nil => rfl
+  | cons o os ih =>
+    have hsub : (dictKeys (os.map (fun o => (o.long, o))) ++ dictKeys (os.flatMap Opt.shortPair)).Nodup := by
+      rw [List.nodup_iff_count] at hn ⊢
+      intro a; have := hn a
+      simp only [List.map_cons, List.flatMap_cons, dictKeys_cons, dictKeys_append, List.count_append,
+        List.count_cons] at this ⊢
+      omega
+    have ih := ih hsub
+    simp only [List.map_cons, List.flatMap_cons, List.find?_cons]
+    by_cases h1 : n = o.long
+    · subst h1; simp [dictGet?, Opt.mem_names]
+    · have h1' : ¬ o.long = n := fun e => h1 e.symm
+      by_cases h2 : o.short = some n ∧ n ≠ []
+      · have hmem : n ∈ o.names := (o.mem_names n).2 (Or.inr h2)
+        have hk : n ∈ dictKeys o.shortPair := (o.shortPair_keys n).2 h2
+        have hnot : dictGet? n (os.map (fun o => (o.long, o))) = none := by
+          rw [dictGet?_eq_none_iff]
+          intro hm
+          rw [List.nodup_iff_count] at hn
+          have := hn n
+          simp only [List.map_cons, List.flatMap_cons, dictKeys_cons, dictKeys_append, List.count_append,
+            List.count_cons] at this
+          have c1 := List.count_pos_iff.2 hm
+          have c2 := List.count_pos_iff.2 hk
+          omega
+        simp [dictGet?, h1', hnot, dictGet?_append, Opt.shortPair_get, h2, hmem]
+      · have hmem : ¬ n ∈ o.names := fun hm => by
+          rcases (o.mem_names n).1 hm with h | h
+          · exact h1 h
+          · exact h2 h
+        simp only [dictGet?, beq_iff_eq, h1', if_false, dictGet?_append, Opt.shortPair_get, h2, hmem,
+          decide_false]
+        exact ih
+
+theorem level_hasOption (os : List Opt) (n : Str) :
+    (dictHas n (os.map (fun o => (o.long, o))) || dictHas n (os.flatMap Opt.shortPair)) =
+      os.any (fun o => decide (n ∈ o.names)) := by
+  rw [Bool.eq_iff_iff]
+  simp only [Bool.or_eq_true, dictHas_iff, List.any_eq_true, decide_eq_true_eq, dictKeys_map_pair,
+    List.mem_map]
+  constructor
+  · rintro (⟨o, ho, rfl⟩ | h)
+    · exact ⟨o, ho, (o.mem_names _).2 (Or.inl rfl)⟩
+    · simp only [dictKeys, List.map_flatMap, List.mem_flatMap] at h
+      obtain ⟨o, ho, hk⟩ := h
+      exact ⟨o, ho, (o.mem_names n).2 (Or.inr ((o.shortPair_keys n).1 hk))⟩
+  · rintro ⟨o, ho, hn⟩
+    rcases (o.mem_names n).1 hn with h | h
+    · exact Or.inl ⟨o, ho, h.symm⟩
+    · right
+      simp only [dictKeys, List.map_flatMap, List.mem_flatMap]
+      exact ⟨o, ho, (o.shortPair_keys n).2 h⟩
+
+theorem find?_all_eq {α : Type} (p : α → Bool) (c : α) (xs : List α) (hx : ∀ x ∈ xs, x = c) (hp : p c = false) :
+    xs.find? p = none := by
+  rw [List.find?_eq_none]
+  intro x hx'; rw [hx x hx']; simp [hp]
+
+/-- one level, command options -/
+theorem level_getCommandOption (cs : List CmdOpt) (n : Str)
+    (hn : (dictKeys (cs.flatMap CmdOpt.longBlock) ++ dictKeys (cs.flatMap CmdOpt.shortBlock)).Nodup) :
+    (dictGet? n (cs.flatMap CmdOpt.longBlock)).or (dictGet? n (cs.flatMap CmdOpt.shortBlock)) =
+      (dictVals (cs.flatMap CmdOpt.longBlock)).find? (fun c => decide (n ∈ c.names)) := by
+  induction cs with
+  | nil => rfl
+  | cons c cs ih =>
+    have hsub : (dictKeys (cs.flatMap CmdOpt.longBlock) ++ dictKeys (cs.flatMap CmdOpt.shortBlock)).Nodup := by
+      rw [List.nodup_iff_count] at hn ⊢
+      intro a; have := hn a
+      simp only [List.flatMap_cons, dictKeys_append, List.count_append] at this ⊢
+      omega
+    have ih := ih hsub
+    obtain ⟨xs, hxs, hall⟩ := c.longBlock_vals
+    simp only [List.flatMap_cons, dictVals_append, dictGet?_append, hxs, List.find?_append, List.find?_cons]
+    by_cases h1 : n = c.long ∨ n ∈ c.longAliases
+    · have hm : n ∈ c.names := (c.mem_names n).2 (Or.inl h1)
+      simp [c.longBlock_get, h1, hm]
+    · by_cases h2 : (c.short = some n ∧ n ≠ []) ∨ n ∈ c.shortAliases
+      · have hm : n ∈ c.names := (c.mem_names n).2 (Or.inr h2)
+        have hk : n ∈ dictKeys c.shortBlock := (c.shortBlock_keys n).2 h2
+        have hnot : dictGet? n (cs.flatMap CmdOpt.longBlock) = none := by
+          rw [dictGet?_eq_none_iff]
+          intro hmm
+          rw [List.nodup_iff_count] at hn
+          have := hn n
+          simp only [List.flatMap_cons, dictKeys_append, List.count_append] at this
+          have c1 := List.count_pos_iff.2 hmm
+          have c2 := List.count_pos_iff.2 hk
+          omega
+        simp [c.longBlock_get, h1, hnot, c.shortBlock_get, h2, hm]
+      · have hm : ¬ n ∈ c.names := fun hm => by
+          rcases (c.mem_names n).1 hm with h | h
+          · exact h1 h
+          · exact h2 h
+        have hf : xs.find? (fun c => decide (n ∈ c.names)) = none :=
+          find?_all_eq _ c xs hall (by simp [hm])
+        simp only [c.longBlock_get, h1, c.shortBlock_get, h2, if_false, hm, decide_false, hf,
+          Option.none_or]
+        simpa using ih
+
+theorem level_hasCommandOption (cs : List CmdOpt) (n : Str) :
+    (dictHas n (cs.flatMap CmdOpt.longBlock) || dictHas n (cs.flatMap CmdOpt.shortBlock)) =
+      (dictVals (cs.flatMap CmdOpt.longBlock)).any (fun c => decide (n ∈ c.names)) := by
+  have hv : ∀ x, x ∈ dictVals (cs.flatMap CmdOpt.longBlock) ↔ x ∈ cs := by
+    intro x
+    simp only [dictVals, List.map_flatMap, List.mem_flatMap]
+    constructor
+    · rintro ⟨c, hc, hx⟩
+      obtain ⟨xs, hxs, hall⟩ := c.longBlock_vals
+      have : x ∈ dictVals c.longBlock := hx
+      rw [hxs] at this
+      rcases List.mem_cons.1 this with h | h
+      · exact h ▸ hc
+      · exact hall x h ▸ hc
+    · intro hx
+      obtain ⟨xs, hxs, _⟩ := x.longBlock_vals
+      exact ⟨x, hx, by show x ∈ dictVals x.longBlock; rw [hxs]; simp⟩
+  rw [Bool.eq_iff_iff]
+  simp only [Bool.or_eq_true, dictHas_iff, List.any_eq_true, decide_eq_true_eq, hv]
+  simp only [dictKeys, List.map_flatMap, List.mem_flatMap]
+  constructor
+  · rintro (⟨c, hc, hk⟩ | ⟨c, hc, hk⟩)
+    · exact ⟨c, hc, (c.mem_names n).2 (Or.inl ((c.longBlock_keys n).1 hk))⟩
+    · exact ⟨c, hc, (c.mem_names n).2 (Or.inr ((c.shortBlock_keys n).1 hk))⟩
+  · rintro ⟨c, hc, hm⟩
+    rcases (c.mem_names n).1 hm with h | h
+    · exact Or.inl ⟨c, hc, (c.longBlock_keys n).2 h⟩
+    · exact Or.inr ⟨c, hc, (c.shortBlock_keys n).2 h⟩
+
+/-! #### listings are the chains -/
+
+theorem FormatRec.optChain_count (f : FormatRec) (n : Str) :
+    (dictKeys f.optChain).count n ≤ f.keyChain.count n := by
+  induction f using FormatRec.ind with
+  | h0 l => simp [baseOpts, baseKeys, Level.keys, List.count_append] <;> omega
+  | h1 g l ih => simp [baseOpts, baseKeys, Level.keys, List.count_append] <;> omega
+
+theorem FormatRec.getOptions_eq (f : FormatRec) (h : f.keyChain.Nodup) : f.getOptions true = f.optChain := by
+  induction f using FormatRec.ind with
+  | h0 l => simp [FormatRec.getOptions, baseOpts]
+  | h1 g l ih =>
+    have hg : g.keyChain.Nodup := by
+      simp only [keyChain_mk, baseKeys] at h; exact (List.nodup_append.1 h).2.1
+    simp only [FormatRec.getOptions, optChain_mk, baseOpts, ih hg]
+    apply dictUpdate_fresh
+    rw [List.nodup_iff_count] at h ⊢
+    intro n
+    have := FormatRec.optChain_count (.mk (some g) l) n
+    simp only [optChain_mk, baseOpts, dictKeys_append] at this
+    exact Nat.le_trans this (h n)
+
+theorem FormatRec.getCommandOptions_eq (f : FormatRec) : f.getCommandOptions true = f.coptChain := by
+  induction f using FormatRec.ind with
+  | h0 l => simp [FormatRec.getCommandOptions, baseCopts]
+  | h1 g l ih => simp [FormatRec.getCommandOptions, baseCopts, ih]
+
+theorem FormatRec.getCommandNames_eq (f : FormatRec) : f.getCommandNames true = f.nameChain := by
+  induction f using FormatRec.ind with
+  | h0 l => simp [FormatRec.getCommandNames, baseNames]
+  | h1 g l ih => simp [FormatRec.getCommandNames, baseNames, ih]
+
+/-! #### options -/
+
+theorem FormatRec.hasOption_eq (f : FormatRec) (h : f.AllOK) (n : Str) :
+    f.hasOption n true = (dictVals f.optChain).any (fun o => decide (n ∈ o.names)) := by
+  induction f using FormatRec.ind with
+  | h0 l =>
+    simp at h; obtain ⟨A, rfl⟩ := h.1
+    have := level_hasOption A.os n
+    simp only [ALevel.toLevel, FormatRec.hasOption, optChain_mk, baseOpts, List.append_nil, dictVals_map_pair]
+    rw [← this]; simp
+  | h1 g l ih =>
+    simp [baseAllOK] at h; obtain ⟨A, rfl⟩ := h.1
+    have := level_hasOption A.os n
+    simp only [ALevel.toLevel, FormatRec.hasOption, optChain_mk, baseOpts, dictVals_append, dictVals_map_pair,
+      List.any_append, ih h.2]
+    rw [← this]; simp
+
+theorem Level.keys_nodup_of_chain {b : Option FormatRec} {l : Level} (h : (FormatRec.mk b l).keyChain.Nodup) :
+    (dictKeys l.opts ++ dictKeys l.optsS).Nodup ∧ (dictKeys l.copts ++ dictKeys l.coptsS).Nodup := by
+  simp only [keyChain_mk, Level.keys] at h
+  have h1 := (List.nodup_append.1 h).1
+  constructor
+  · exact (List.nodup_append.1 (List.nodup_append.1 h1).1).1
+  · rw [List.append_assoc, List.append_assoc] at h1
+    have := (List.nodup_append.1 h1).2.1
+    exact (List.nodup_append.1 this).2.1
+
+/-- what a lookup answers when `find?` is the declarative meaning -/
+def lookup {α : Type} (r : Option α) (e : Err) : Except Err α :=
+  match r with
+  | some a => .ok a
+  | none => .error e
+
+theorem FormatRec.getOption_eq (f : FormatRec) (h : InvF f) (n : Str) :
+    f.getOption n true = lookup ((dictVals f.optChain).find? (fun o => decide (n ∈ o.names))) .noSuchOption := by
+  induction f using FormatRec.ind with
+  | h0 l =>
+    have hk := (Level.keys_nodup_of_chain h.keys).1
+    have hok := h.ok; simp at hok; obtain ⟨A, rfl⟩ := hok.1
+    have := level_getOption A.os n (by simpa [ALevel.toLevel] using hk)
+    simp only [ALevel.toLevel, FormatRec.getOption, optChain_mk, baseOpts, List.append_nil, dictVals_map_pair]
+    rw [← this]
+    cases dictGet? n (A.os.map fun o => (o.long, o)) <;> cases dictGet? n (A.os.flatMap Opt.shortPair) <;> rfl
+  | h1 g l ih =>
+    have hk := (Level.keys_nodup_of_chain h.keys).1
+    have hok := h.ok; simp [baseAllOK] at hok; obtain ⟨A, rfl⟩ := hok.1
+    have := level_getOption A.os n (by simpa [ALevel.toLevel] using hk)
+    simp only [ALevel.toLevel, FormatRec.getOption, optChain_mk, baseOpts, dictVals_append, dictVals_map_pair,
+      List.find?_append, ih h.base]
+    rw [← this]
+    cases dictGet? n (A.os.map fun o => (o.long, o)) <;> cases dictGet? n (A.os.flatMap Opt.shortPair) <;> rfl
+
+theorem FormatRec.hasOptions_eq (f : FormatRec) : f.hasOptions true = !f.optChain.isEmpty := by
+  induction f using FormatRec.ind with
+  | h0 l => cases hl : l.opts <;> simp [FormatRec.hasOptions, baseOpts, hl]
+  | h1 g l ih => cases hl : l.opts <;> simp [FormatRec.hasOptions, baseOpts, ih, hl]
+
+/-! #### command options -/
+
+theorem FormatRec.hasCommandOption_eq (f : FormatRec) (h : f.AllOK) (n : Str) :
+    f.hasCommandOption n true = f.coptChain.any (fun c => decide (n ∈ c.names)) := by
+  induction f using FormatRec.ind with
+  | h0 l =>
+    simp at h; obtain ⟨A, rfl⟩ := h.1
+    have := level_hasCommandOption A.cs n
+    simp only [ALevel.toLevel, FormatRec.hasCommandOption, coptChain_mk, baseCopts, List.append_nil]
+    rw [← this]; simp
+  | h1 g l ih =>
+    simp [baseAllOK] at h; obtain ⟨A, rfl⟩ := h.1
+    have := level_hasCommandOption A.cs n
+    simp only [ALevel.toLevel, FormatRec.hasCommandOption, coptChain_mk, baseCopts, List.any_append, ih h.2]
+    rw [← this]; simp
+
+theorem FormatRec.getCommandOption_eq (f : FormatRec) (h : InvF f) (n : Str) :
+    f.getCommandOption n true = lookup (f.coptChain.find? (fun c => decide (n ∈ c.names))) .noSuchOption := by
+  induction f using FormatRec.ind with
+  | h0 l =>
+    have hk := (Level.keys_nodup_of_chain h.keys).2
+    have hok := h.ok; simp at hok; obtain ⟨A, rfl⟩ := hok.1
+    have := level_getCommandOption A.cs n (by simpa [ALevel.toLevel] using hk)
+    simp only [ALevel.toLevel, FormatRec.getCommandOption, coptChain_mk, baseCopts, List.append_nil]
+    rw [← this]
+    cases dictGet? n (A.cs.flatMap CmdOpt.longBlock) <;> cases dictGet? n (A.cs.flatMap CmdOpt.shortBlock) <;> rfl
+  | h1 g l ih =>
+    have hk := (Level.keys_nodup_of_chain h.keys).2
+    have hok := h.ok; simp [baseAllOK] at hok; obtain ⟨A, rfl⟩ := hok.1
+    have := level_getCommandOption A.cs n (by simpa [ALevel.toLevel] using hk)
+    simp only [ALevel.toLevel, FormatRec.getCommandOption, coptChain_mk, baseCopts, List.find?_append, ih h.base]
+    rw [← this]
+    cases dictGet? n (A.cs.flatMap CmdOpt.longBlock) <;> cases dictGet? n (A.cs.flatMap CmdOpt.shortBlock) <;> rfl
+
+theorem FormatRec.hasCommandOptions_eq (f : FormatRec) : f.hasCommandOptions true = !f.coptChain.isEmpty := by
+  induction f using FormatRec.ind with
+  | h0 l => cases hl : l.copts <;> simp [FormatRec.hasCommandOptions, baseCopts, hl]
+  | h1 g l ih => cases hl : l.copts <;> simp [FormatRec.hasCommandOptions, baseCopts, ih, hl]
+
+theorem FormatRec.hasCommandNames_eq (f : FormatRec) : f.hasCommandNames true = !f.nameChain.isEmpty := by
+  induction f using FormatRec.ind with
+  | h0 l => cases hl : l.names <;> simp [FormatRec.hasCommandNames, baseNames, hl]
+  | h1 g l ih => cases hl : l.names <;> simp [FormatRec.hasCommandNames, baseNames, ih, hl]
+
+/-! #### arguments -/
+
+theorem FormatRec.argChain_keyed (f : FormatRec) (h : f.AllOK) : ∀ p ∈ f.argChain, p.1 = p.2.name := by
+  induction f using FormatRec.ind with
+  | h0 l =>
+    simp at h; obtain ⟨A, rfl⟩ := h.1
+    intro p hp; simp [baseArgs, ALevel.toLevel] at hp
+    obtain ⟨a, _, rfl⟩ := hp; rfl
+  | h1 g l ih =>
+    simp [baseAllOK] at h; obtain ⟨A, rfl⟩ := h.1
+    intro p hp; simp [baseArgs, ALevel.toLevel] at hp
+    rcases hp with hp | ⟨a, _, rfl⟩
+    · exact ih h.2 p hp
+    · rfl
+
+theorem dictGet?_keyed {d : Dict Arg} (hk : ∀ p ∈ d, p.1 = p.2.name) (n : Str) :
+    dictGet? n d = (dictVals d).find? (fun a => decide (a.name = n)) := by
+  induction d with
+  | nil => rfl
+  | cons p d ih =>
+    obtain ⟨k, a⟩ := p
+    have hka : k = a.name := hk (k, a) (by simp)
+    subst hka
+    have ih := ih (fun p hp => hk p (by simp [hp]))
+    by_cases h : a.name = n
+    · simp [dictGet?, h]
+    · simp [dictGet?, h, ih]
+
+theorem FormatRec.hasArgument_eq (f : FormatRec) (h : InvF f) (n : Str) :
+    f.hasArgument n true = (dictVals f.argChain).any (fun a => decide (a.name = n)) := by
+  unfold FormatRec.hasArgument dictHas
+  rw [f.getArguments_eq h, dictGet?_keyed (f.argChain_keyed h.ok)]
+  rw [Bool.eq_iff_iff]; simp
+
+theorem FormatRec.getArgument_eq (f : FormatRec) (h : InvF f) (n : Str) :
+    f.getArgument n true = lookup ((dictVals f.argChain).find? (fun a => decide (a.name = n))) .noSuchArgument := by
+  unfold FormatRec.getArgument dictHas
+  simp only [f.getArguments_eq h, dictGet?_keyed (f.argChain_keyed h.ok)]
+  cases (dictVals f.argChain).find? (fun a => decide (a.name = n)) <;> rfl
+
+theorem FormatRec.hasArgumentAt_eq (f : FormatRec) (h : InvF f) (i : Nat) :
+    f.hasArgumentAt (i : Int) true = decide (i < (dictVals f.argChain).length) := by
+  unfold FormatRec.hasArgumentAt
+  rw [f.getArguments_eq h]
+  simp [dictVals]
+
+theorem pyIndex_nat {α : Type} (l : List α) (i : Nat) (h : i < l.length) : pyIndex l (i : Int) = .ok l[i] := by
+  unfold pyIndex
+  have h1 : ¬ ((i : Int) < 0) := by omega
+  simp [h1, h]
+
+theorem FormatRec.getArgumentAt_eq (f : FormatRec) (h : InvF f) (i : Nat) :
+    f.getArgumentAt (i : Int) true = lookup ((dictVals f.argChain)[i]?) .noSuchArgument := by
+  unfold FormatRec.getArgumentAt
+  simp only [f.getArguments_eq h]
+  by_cases hi : i < (dictVals f.argChain).length
+  · have : ¬ ((i : Int) ≥ ((dictVals f.argChain).length : Int)) := by omega
+    simp only [this, if_false]
+    rw [pyIndex_nat _ _ hi, List.getElem?_eq_getElem hi]; rfl
+  · have : ((i : Int) ≥ ((dictVals f.argChain).length : Int)) := by omega
+    simp only [this, if_true]
+    rw [List.getElem?_eq_none (by omega)]; rfl
+
+theorem FormatRec.hasRequired_eq (f : FormatRec) :
+    f.hasRequiredArgument true = (dictVals f.argChain).any (·.required) := by
+  induction f using FormatRec.ind with
+  | h0 l => simp [FormatRec.hasRequiredArgument, baseArgs, List.any_eq]
+  | h1 g l ih =>
+    simp only [FormatRec.hasRequiredArgument, argChain_mk, baseArgs, dictVals_append, List.any_append, ih]
+    cases (dictVals l.args).any (·.required) <;> simp
+
+theorem FormatRec.hasArguments_eq (f : FormatRec) : f.hasArguments true = !f.argChain.isEmpty := by
+  induction f using FormatRec.ind with
+  | h0 l => cases hl : l.args <;> simp [FormatRec.hasArguments, baseArgs, hl]
+  | h1 g l ih => cases hl : l.args <;> simp [FormatRec.hasArguments, baseArgs, ih, hl]
+
+/-! #### `include_base=False` = the same question to the format without its base -/
+
+/-- the format without its base -/
+def FormatRec.top (f : FormatRec) : FormatRec := .mk none f.own
+
+theorem ArgsOK.suffix {xs ys : List Arg} (h : ArgsOK (xs ++ ys)) : ArgsOK ys := by
+  refine ⟨?_, ?_, ?_⟩
+  · have := h.names; simp only [List.map_append] at this
+    exact (List.nodup_append.1 this).2.1
+  · intro a ha
+    apply h.multiLast a
+    by_cases hy : ys = []
+    · subst hy; simp at ha
+    · rw [List.dropLast_append_of_ne_nil hy]; exact List.mem_append_right _ ha
+  · exact (List.pairwise_append.1 h.order).2.1
+
+theorem InvF.top {f : FormatRec} (h : InvF f) : InvF f.top := by
+  obtain ⟨b, l⟩ := f
+  refine ⟨?_, ?_, ?_⟩
+  · have := h.ok; simp at this; simp [FormatRec.top, FormatRec.own, baseAllOK, this.1]
+  · have := h.keys; simp only [keyChain_mk] at this
+    simpa [FormatRec.top, FormatRec.own, baseKeys] using (List.nodup_append.1 this).1
+  · have := h.args; simp only [argChain_mk, dictVals_append] at this
+    simpa [FormatRec.top, FormatRec.own, baseArgs] using this.suffix
+
+theorem queryF_false (f : FormatRec) (q : Query) :
+    queryF f (match q with
+      | .hasCommandNames _ => .hasCommandNames false
+      | .getCommandNames _ => .getCommandNames false
+      | .hasCommandOption n _ => .hasCommandOption n false
+      | .hasCommandOptions _ => .hasCommandOptions false
+      | .getCommandOption n _ => .getCommandOption n false
+      | .getCommandOptions _ => .getCommandOptions false
+      | .hasArgument n _ => .hasArgument n false
+      | .hasArgumentAt i _ => .hasArgumentAt i false
+      | .hasMultiValuedArgument _ => .hasMultiValuedArgument false
+      | .hasOptionalArgument _ => .hasOptionalArgument false
+      | .hasRequiredArgument _ => .hasRequiredArgument false
+      | .hasArguments _ => .hasArguments false
+      | .getArgument n _ => .getArgument n false
+      | .getArgumentAt i _ => .getArgumentAt i false
+      | .getArguments _ => .getArguments false
+      | .hasOption n _ => .hasOption n false
+      | .hasOptions _ => .hasOptions false
+      | .getOption n _ => .getOption n false
+      | .getOptions _ => .getOptions false) =
+    queryF f.top (match q with
+      | .hasCommandNames _ => .hasCommandNames true
+      | .getCommandNames _ => .getCommandNames true
+      | .hasCommandOption n _ => .hasCommandOption n true
+      | .hasCommandOptions _ => .hasCommandOptions true
+      | .getCommandOption n _ => .getCommandOption n true
+      | .getCommandOptions _ => .getCommandOptions true
+      | .hasArgument n _ => .hasArgument n true
+      | .hasArgumentAt i _ => .hasArgumentAt i true
+      | .hasMultiValuedArgument _ => .hasMultiValuedArgument true
+      | .hasOptionalArgument _ => .hasOptionalArgument true
+      | .hasRequiredArgument _ => .hasRequiredArgument true
+      | .hasArguments _ => .hasArguments true
+      | .getArgument n _ => .getArgument n true
+      | .getArgumentAt i _ => .getArgumentAt i true
+      | .getArguments _ => .getArguments true
+      | .hasOption n _ => .hasOption n true
+      | .hasOptions _ => .hasOptions true
+      | .getOption n _ => .getOption n true
+      | .getOptions _ => .getOptions true) := by
+  obtain ⟨b, l⟩ := f
+  cases b <;> cases q <;>
+    simp only [queryF, FormatRec.top, FormatRec.own, FormatRec.hasCommandNames, FormatRec.getCommandNames,
+      FormatRec.hasCommandOption, FormatRec.hasCommandOptions, FormatRec.getCommandOption,
+      FormatRec.getCommandOptions, FormatRec.getArguments, FormatRec.hasArgument, FormatRec.hasArgumentAt,
+      FormatRec.hasMultiValuedArgument, FormatRec.hasOptionalArgument, FormatRec.hasRequiredArgument,
+      FormatRec.hasArguments, FormatRec.getArgument, FormatRec.getArgumentAt, FormatRec.hasOption,
+      FormatRec.hasOptions, FormatRec.getOption, FormatRec.getOptions] <;> rfl
+
+/-! #### the assembled statement -/
+
+/-- **The declarative meaning of every predicate and lookup over the listed elements**, for
+one setting of `include_base`: the listings are `get_options`, `get_command_options`,
+`get_arguments`, `get_command_names`; everything else is a function of them. -/
+structure QueriesMatch (f : FormatRec) (ib : Bool) : Prop where
+  hasOptions : f.hasOptions ib = !(f.getOptions ib).isEmpty
+  optionKeys : dictKeys (f.getOptions ib) = (dictVals (f.getOptions ib)).map (·.long)
+  hasOption : ∀ n, f.hasOption n ib = (dictVals (f.getOptions ib)).any (fun o => decide (n ∈ o.names))
+  getOption : ∀ n, f.getOption n ib =
+    lookup ((dictVals (f.getOptions ib)).find? (fun o => decide (n ∈ o.names))) .noSuchOption
+  hasCommandOptions : f.hasCommandOptions ib = !(f.getCommandOptions ib).isEmpty
+  hasCommandOption : ∀ n, f.hasCommandOption n ib = (f.getCommandOptions ib).any (fun c => decide (n ∈ c.names))
+  getCommandOption : ∀ n, f.getCommandOption n ib =
+    lookup ((f.getCommandOptions ib).find? (fun c => decide (n ∈ c.names))) .noSuchOption
+  hasArguments : f.hasArguments ib = !(f.getArguments ib).isEmpty
+  argumentKeys : dictKeys (f.getArguments ib) = (dictVals (f.getArguments ib)).map (·.name)
+  hasArgument : ∀ n, f.hasArgument n ib = (dictVals (f.getArguments ib)).any (fun a => decide (a.name = n))
+  getArgument : ∀ n, f.getArgument n ib =
+    lookup ((dictVals (f.getArguments ib)).find? (fun a => decide (a.name = n))) .noSuchArgument
+  hasArgumentAt : ∀ i : Nat, f.hasArgumentAt (i : Int) ib = decide (i < (dictVals (f.getArguments ib)).length)
+  getArgumentAt : ∀ i : Nat, f.getArgumentAt (i : Int) ib =
+    lookup ((dictVals (f.getArguments ib))[i]?) .noSuchArgument
+  hasMultiValued : f.hasMultiValuedArgument ib = (dictVals (f.getArguments ib)).any (·.multi)
+  hasOptional : f.hasOptionalArgument ib = (dictVals (f.getArguments ib)).any (·.optional)
+  hasRequired : f.hasRequiredArgument ib = (dictVals (f.getArguments ib)).any (·.required)
+  hasCommandNames : f.hasCommandNames ib = !(f.getCommandNames ib).isEmpty
+
+theorem FormatRec.optChain_keys (f : FormatRec) (h : f.AllOK) :
+    dictKeys f.optChain = (dictVals f.optChain).map (·.long) := by
+  induction f using FormatRec.ind with
+  | h0 l => simp at h; obtain ⟨A, rfl⟩ := h.1; simp [baseOpts, ALevel.toLevel]
+  | h1 g l ih =>
+    simp [baseAllOK] at h; obtain ⟨A, rfl⟩ := h.1
+    simp [baseOpts, ALevel.toLevel, ih h.2]
+
+theorem queriesMatch_true (f : FormatRec) (h : InvF f) : QueriesMatch f true := by
+  have e1 := f.getOptions_eq h.keys
+  have e2 := f.getCommandOptions_eq
+  have e3 := f.getArguments_eq h
+  have e4 := f.getCommandNames_eq
+  refine ⟨?_, ?_, ?_, ?_, ?_, ?_, ?_, ?_, ?_, ?_, ?_, ?_, ?_, ?_, ?_, ?_, ?_⟩
+  · rw [e1]; exact f.hasOptions_eq
+  · rw [e1]; exact f.optChain_keys h.ok
+  · intro n; rw [e1]; exact f.hasOption_eq h.ok n
+  · intro n; rw [e1]; exact f.getOption_eq h n
+  · rw [e2]; exact f.hasCommandOptions_eq
+  · intro n; rw [e2]; exact f.hasCommandOption_eq h.ok n
+  · intro n; rw [e2]; exact f.getCommandOption_eq h n
+  · rw [e3]; exact f.hasArguments_eq
+  · rw [e3]; exact f.argChain_keys h.ok
+  · intro n; rw [e3]; exact f.hasArgument_eq h n
+  · intro n; rw [e3]; exact f.getArgument_eq h n
+  · intro i; rw [e3]; exact f.hasArgumentAt_eq h i
+  · intro i; rw [e3]; exact f.getArgumentAt_eq h i
+  · rw [e3]; exact (f.flags_eq h.ok).1
+  · rw [e3]; exact (f.flags_eq h.ok).2
+  · rw [e3]; exact f.hasRequired_eq
+  · rw [e4]; exact f.hasCommandNames_eq
+
+theorem queriesMatch_false (f : FormatRec) (h : InvF f) : QueriesMatch f false := by
+  have t := queriesMatch_true f.top h.top
+  have q := queryF_false f
+  have g1 := q (.getOptions true); have g2 := q (.getCommandOptions true)
+  have g3 := q (.getArguments true); have g4 := q (.getCommandNames true)
+  simp only [queryF, Answer.opts.injEq, Answer.copts.injEq, Answer.args.injEq, Answer.names.injEq] at g1 g2 g3 g4
+  refine ⟨?_, ?_, ?_, ?_, ?_, ?_, ?_, ?_, ?_, ?_, ?_, ?_, ?_, ?_, ?_, ?_, ?_⟩
+  · have := q (.hasOptions true); simp only [queryF, Answer.bool.injEq] at this; rw [this, g1]; exact t.hasOptions
+  · rw [g1]; exact t.optionKeys
+  · intro n; have := q (.hasOption n true); simp only [queryF, Answer.bool.injEq] at this
+    rw [this, g1]; exact t.hasOption n
+  · intro n; have := q (.getOption n true); simp only [queryF, Answer.opt.injEq] at this
+    rw [this, g1]; exact t.getOption n
+  · have := q (.hasCommandOptions true); simp only [queryF, Answer.bool.injEq] at this
+    rw [this, g2]; exact t.hasCommandOptions
+  · intro n; have := q (.hasCommandOption n true); simp only [queryF, Answer.bool.injEq] at this
+    rw [this, g2]; exact t.hasCommandOption n
+  · intro n; have := q (.getCommandOption n true); simp only [queryF, Answer.copt.injEq] at this
+    rw [this, g2]; exact t.getCommandOption n
+  · have := q (.hasArguments true); simp only [queryF, Answer.bool.injEq] at this; rw [this, g3]; exact t.hasArguments
+  · rw [g3]; exact t.argumentKeys
+  · intro n; have := q (.hasArgument n true); simp only [queryF, Answer.bool.injEq] at this
+    rw [this, g3]; exact t.hasArgument n
+  · intro n; have := q (.getArgument n true); simp only [queryF, Answer.arg.injEq] at this
+    rw [this, g3]; exact t.getArgument n
+  · intro i; have := q (.hasArgumentAt i true); simp only [queryF, Answer.bool.injEq] at this
+    rw [this, g3]; exact t.hasArgumentAt i
+  · intro i; have := q (.getArgumentAt i true); simp only [queryF, Answer.arg.injEq] at this
+    rw [this, g3]; exact t.getArgumentAt i
+  · have := q (.hasMultiValuedArgument true); simp only [queryF, Answer.bool.injEq] at this
+    rw [this, g3]; exact t.hasMultiValued
+  · have := q (.hasOptionalArgument true); simp only [queryF, Answer.bool.injEq] at this
+    rw [this, g3]; exact t.hasOptional
+  · have := q (.hasRequiredArgument true); simp only [queryF, Answer.bool.injEq] at this
+    rw [this, g3]; exact t.hasRequired
+  · have := q (.hasCommandNames true); simp only [queryF, Answer.bool.injEq] at this
+    rw [this, g4]; exact t.hasCommandNames
+
+/-- the listings themselves: own level and base compose in the listing order of each kind -/
+theorem listings_compose (g : FormatRec) (l : Level) (h : InvF (.mk (some g) l)) :
+    (FormatRec.mk (some g) l).getOptions true = l.opts ++ g.getOptions true ∧
+    (FormatRec.mk (some g) l).getCommandOptions true = dictVals l.copts ++ g.getCommandOptions true ∧
+    (FormatRec.mk (some g) l).getArguments true = g.getArguments true ++ l.args ∧
+    (FormatRec.mk (some g) l).getCommandNames true = g.getCommandNames true ++ l.names := by
+  refine ⟨?_, ?_, ?_, ?_⟩
+  · rw [FormatRec.getOptions_eq _ h.keys, FormatRec.getOptions_eq _ h.base.keys]; simp [baseOpts]
+  · rfl
+  · rw [FormatRec.getArguments_eq _ h, FormatRec.getArguments_eq _ h.base]; simp [baseArgs]
+  · rfl
+
+/-! #### every name identifies at most one option (in terms of the listed elements) -/
+
+abbrev Owner := Opt ⊕ CmdOpt
+
+def Level.entries (l : Level) : Dict Owner :=
+  l.opts.map (fun p => (p.1, Sum.inl p.2)) ++ l.optsS.map (fun p => (p.1, Sum.inl p.2)) ++
+  l.copts.map (fun p => (p.1, Sum.inr p.2)) ++ l.coptsS.map (fun p => (p.1, Sum.inr p.2))
+
+/-- every (key, element) pair of every option table of the format and its bases -/
+def FormatRec.entries : FormatRec → Dict Owner
+  | .mk b l => l.entries ++ (match b with | some g => g.entries | none => [])
+
+theorem Level.entries_keys (l : Level) : dictKeys l.entries = l.keys := by
+  simp [Level.entries, Level.keys, dictKeys, Function.comp_def]
+
+theorem FormatRec.entries_keys (f : FormatRec) : dictKeys f.entries = f.keyChain := by
+  induction f using FormatRec.ind with
+  | h0 l => simp [FormatRec.entries, Level.entries_keys, baseKeys]
+  | h1 g l ih => simp [FormatRec.entries, Level.entries_keys, baseKeys, ih]
+
+theorem cs_of_vals (cs : List CmdOpt) (x : CmdOpt) (hx : x ∈ dictVals (cs.flatMap CmdOpt.longBlock)) : x ∈ cs := by
+  simp only [dictVals, List.map_flatMap, List.mem_flatMap] at hx
+  obtain ⟨c, hc, hx⟩ := hx
+  obtain ⟨xs, hxs, hall⟩ := c.longBlock_vals
+  have : x ∈ dictVals c.longBlock := hx
+  rw [hxs] at this
+  rcases List.mem_cons.1 this with h | h
+  · exact h ▸ hc
+  · exact hall x h ▸ hc
+
+theorem Level.opt_entry (A : ALevel) (o : Opt) (ho : o ∈ A.os) (n : Str) (hn : n ∈ o.names) :
+    (n, Sum.inl o) ∈ A.toLevel.entries := by
+  simp only [Level.entries, ALevel.toLevel, List.mem_append, List.mem_map]
+  rcases (o.mem_names n).1 hn with h | h
+  · exact Or.inl (Or.inl (Or.inl ⟨(o.long, o), ⟨o, ho, rfl⟩, by simp [h]⟩))
+  · refine Or.inl (Or.inl (Or.inr ⟨(n, o), ?_, rfl⟩))
+    rw [List.mem_flatMap]
+    refine ⟨o, ho, dictGet?_mem ?_⟩
+    rw [o.shortPair_get]; simp [h]
+
+theorem Level.copt_entry (A : ALevel) (c : CmdOpt) (hc : c ∈ A.cs) (n : Str) (hn : n ∈ c.names) :
+    (n, Sum.inr c) ∈ A.toLevel.entries := by
+  simp only [Level.entries, ALevel.toLevel, List.mem_append, List.mem_map]
+  rcases (c.mem_names n).1 hn with h | h
+  · refine Or.inl (Or.inr ⟨(n, c), ?_, rfl⟩)
+    rw [List.mem_flatMap]
+    refine ⟨c, hc, dictGet?_mem ?_⟩
+    rw [c.longBlock_get]; simp [h]
+  · refine Or.inr ⟨(n, c), ?_, rfl⟩
+    rw [List.mem_flatMap]
+    refine ⟨c, hc, dictGet?_mem ?_⟩
+    rw [c.shortBlock_get]; simp [h]
+
+theorem FormatRec.opt_entry (f : FormatRec) (h : f.AllOK) (o : Opt) (ho : o ∈ dictVals f.optChain)
+    (n : Str) (hn : n ∈ o.names) : (n, Sum.inl o) ∈ f.entries := by
+  induction f using FormatRec.ind with
+  | h0 l =>
+    simp at h; obtain ⟨A, rfl⟩ := h.1
+    simp [baseOpts, ALevel.toLevel] at ho
+    simpa [FormatRec.entries] using Level.opt_entry A o ho n hn
+  | h1 g l ih =>
+    simp [baseAllOK] at h; obtain ⟨A, rfl⟩ := h.1
+    simp only [optChain_mk, baseOpts, dictVals_append, List.mem_append] at ho
+    simp only [FormatRec.entries, List.mem_append]
+    rcases ho with ho | ho
+    · exact Or.inl (Level.opt_entry A o (by simpa [ALevel.toLevel] using ho) n hn)
+    · exact Or.inr (ih h.2 ho)
+
+theorem FormatRec.copt_entry (f : FormatRec) (h : f.AllOK) (c : CmdOpt) (hc : c ∈ f.coptChain)
+    (n : Str) (hn : n ∈ c.names) : (n, Sum.inr c) ∈ f.entries := by
+  induction f using FormatRec.ind with
+  | h0 l =>
+    simp at h; obtain ⟨A, rfl⟩ := h.1
+    simp only [coptChain_mk, baseCopts, List.append_nil] at hc
+    simpa [FormatRec.entries] using Level.copt_entry A c (cs_of_vals A.cs c hc) n hn
+  | h1 g l ih =>
+    simp [baseAllOK] at h; obtain ⟨A, rfl⟩ := h.1
+    simp only [coptChain_mk, baseCopts, List.mem_append] at hc
+    simp only [FormatRec.entries, List.mem_append]
+    rcases hc with hc | hc
+    · exact Or.inl (Level.copt_entry A c (cs_of_vals A.cs c hc) n hn)
+    · exact Or.inr (ih h.2 hc)
+
+theorem entries_functional (f : FormatRec) (h : f.keyChain.Nodup) (n : Str) (x y : Owner)
+    (hx : (n, x) ∈ f.entries) (hy : (n, y) ∈ f.entries) : x = y := by
+  rw [← f.entries_keys] at h
+  have := dictGet?_of_mem h hx
+  rw [dictGet?_of_mem h hy] at this
+  injection this with this; exact this.symm
+
+/-- **Every long name, short name and alias identifies at most one option** across the format
+and its bases, stated over the listed elements. -/
+theorem names_unique (f : FormatRec) (h : InvF f) (n : Str) :
+    (∀ o1 ∈ dictVals (f.getOptions true), ∀ o2 ∈ dictVals (f.getOptions true),
+        n ∈ o1.names → n ∈ o2.names → o1 = o2) ∧
+    (∀ c1 ∈ f.getCommandOptions true, ∀ c2 ∈ f.getCommandOptions true,
+        n ∈ c1.names → n ∈ c2.names → c1 = c2) ∧
+    (∀ o ∈ dictVals (f.getOptions true), ∀ c ∈ f.getCommandOptions true, n ∈ o.names → n ∉ c.names) := by
+  rw [f.getOptions_eq h.keys, f.getCommandOptions_eq]
+  refine ⟨?_, ?_, ?_⟩
+  · intro o1 h1 o2 h2 n1 n2
+    have := entries_functional f h.keys n _ _ (f.opt_entry h.ok o1 h1 n n1) (f.opt_entry h.ok o2 h2 n n2)
+    injection this
+  · intro c1 h1 c2 h2 n1 n2
+    have := entries_functional f h.keys n _ _ (f.copt_entry h.ok c1 h1 n n1) (f.copt_entry h.ok c2 h2 n n2)
+    injection this
+  · intro o h1 c h2 n1 n2
+    have := entries_functional f h.keys n _ _ (f.opt_entry h.ok o h1 n n1) (f.copt_entry h.ok c h2 n n2)
+    cases this
+
 end Clikit.ArgsFmt
